@@ -301,21 +301,21 @@ Definition ex_pkg : list N := map (fun i => (N.of_nat i * 7 + 3) mod 256) (List.
 Definition ENCRYPTION_INFO : list N := [69;110;99;114;121;112;116;105;111;110;73;110;102;111].
 Definition ex_c (ss : N) : container :=
   {| c_ss := ss; c_storages := [[6;68;97;116;97;83;112;97;99;101;115]];
-     c_streams := [(ENCRYPTION_INFO, ex_info); (ENCRYPTED_PACKAGE, ex_pkg)] |}.
+     c_streams := [(ENCRYPTION_INFO, ex_info); (ENCRYPTED_PACKAGE, ex_pkg)]; c_parents := [] |}.
 Definition ex_l : layout :=
   {| l_nsect := 15; l_fat_ids := [7]; l_difat_ids := []; l_dir_ids := [3]; l_minifat_ids := [12];
      l_root_ids := [0]; l_nmini := 3;
      l_chains := [[2; 0]; [14; 2; 9; 1; 13; 4; 11; 5; 10; 6]];
-     l_slots := [2; 3; 1]; l_pad := 170; l_size_hi := 4294967295; l_empty_start := 0 |}.
+     l_slots := [2; 3; 1]; l_pad := 170; l_size_hi := 4294967295; l_empty_start := 0; l_links := [] |}.
 Definition ex_l4 : layout :=
   {| l_nsect := 6; l_fat_ids := [0]; l_difat_ids := []; l_dir_ids := [1]; l_minifat_ids := [2];
      l_root_ids := [3]; l_nmini := 2;
      l_chains := [[0; 1]; [4; 5]];
-     l_slots := [1; 2; 3]; l_pad := 0; l_size_hi := 0; l_empty_start := ENDOFCHAIN |}.
+     l_slots := [1; 2; 3]; l_pad := 0; l_size_hi := 0; l_empty_start := ENDOFCHAIN; l_links := [] |}.
 (* the same container without the package *)
 Definition ex_plain (ss : N) : container :=
   {| c_ss := ss; c_storages := [[6;68;97;116;97;83;112;97;99;101;115]];
-     c_streams := [(ENCRYPTION_INFO, ex_info); ([87;111;114;107;98;111;111;107], ex_pkg)] |}.
+     c_streams := [(ENCRYPTION_INFO, ex_info); ([87;111;114;107;98;111;111;107], ex_pkg)]; c_parents := [] |}.
 
 Example C20_encrypted_ooxml_is_password_any_layout_nonvacuous :
   valid_layout (ex_c 512) ex_l /\ valid_layout (ex_c 4096) ex_l4 /\
